@@ -230,6 +230,24 @@ theorem divsteps_eq_loop (L : Nat) (e f0 g : List (BitVec 64)) (inv : BitVec 64)
           (Gen.SafeGcd.iterations (UnsatInt.bits L f0) (UnsatInt.bits L g)).toNat 0 e g (List.replicate L 0#64) f0 1#64).2.2.2.1) := by
   simp only [divsteps] <;> chain_congr 8
 
+/-! ## `SafeGcdInverter::norm` -/
+
+/-- `norm(&self, value, negate)`: `&self` is the tuple of the fields (modulus, adjuster, inverse); three conditional
+    corrections -/
+theorem inverter_norm_eq (L : Nat) (s : List (BitVec 64) × List (BitVec 64) × BitVec 64) (v : List (BitVec 64))
+    (ng : BitVec 64) :
+    Inverter.norm L s v ng =
+      UnsatInt.select L
+        (UnsatInt.select L (UnsatInt.select L v (UnsatInt.add L v s.1) (UnsatInt.is_negative L v))
+          (UnsatInt.neg L (UnsatInt.select L v (UnsatInt.add L v s.1) (UnsatInt.is_negative L v))) ng)
+        (UnsatInt.add L
+          (UnsatInt.select L (UnsatInt.select L v (UnsatInt.add L v s.1) (UnsatInt.is_negative L v))
+            (UnsatInt.neg L (UnsatInt.select L v (UnsatInt.add L v s.1) (UnsatInt.is_negative L v))) ng) s.1)
+        (UnsatInt.is_negative L
+          (UnsatInt.select L (UnsatInt.select L v (UnsatInt.add L v s.1) (UnsatInt.is_negative L v))
+            (UnsatInt.neg L (UnsatInt.select L v (UnsatInt.add L v s.1) (UnsatInt.is_negative L v))) ng)) := by
+  simp only [Inverter.norm] <;> chain_congr 8
+
 /-! ## the word arithmetic of a round on `Nat`s -/
 
 open CB.SafeGcd in
